@@ -88,10 +88,27 @@ func VerifC10RoundTrip() {
 func VerifC10Matches() {
 	pk := c10Key("k")
 	var id ID
-	if rt.Choose("idkind", 2) == 0 {
+	switch rt.Choose("idkind", 3) {
+	case 0:
 		id = ID(rt.Bytes("id", 0, 6))
-	} else {
+	case 1:
 		id = ID(rt.Bytes("id", 36, 38))
+	case 2:
+		// a well-formed identity multihash around another encoding of the same key message: fields in
+		// the other order, a repeated key_type, or a trailing unknown field. Such an id decodes to the
+		// key but is not the id derived from it.
+		raw, _ := pk.Raw()
+		var msg []byte
+		switch rt.Choose("encoding", 3) {
+		case 0:
+			msg = append(append([]byte{0x12, 0x20}, raw...), 0x08, 0x01)
+		case 1:
+			msg = append(append([]byte{0x08, 0x01, 0x08, 0x01, 0x12, 0x20}, raw...))
+		case 2:
+			msg = append(append([]byte{0x08, 0x01, 0x12, 0x20}, raw...), 0x18, rt.U8("unknownField")&0x7f)
+		}
+		id = ID(encodeMultihash(0, msg))
+		rt.Reach("non-canonical embedded key")
 	}
 	want, err := IDFromPublicKey(pk)
 	rt.Assert("id from key", err == nil)
